@@ -17,7 +17,7 @@ var stubCommon = []string{
 
 func init() {
 	props["C07"] = &propCfg{
-		id: "C07", level: "exploration", quickN: 20000, thoroughN: 1500000,
+		id: "C07", level: "exploration", quickN: 20000, thoroughN: 800000,
 		rule: "One episode = one seeded (program, inputs, entry point, context kind, cancellation instant, caller-stall fault, host-block fault, schedule tape). " +
 			"A case is (program template | entry point Compiled.RunContext/Script.RunContext/Eval | context kind | state of the run when cancellation took effect: beforeSpawn, beforeVMStart, atVMRunEnter, atStep0, midRun, duringHostCall, afterVMFinished); " +
 			"it is non-trivial when the context was cancelled before the call returned. distinct_nontrivial counts distinct such cases; distinct interleavings and abstract states are reported separately. " +
@@ -34,7 +34,7 @@ func init() {
 
 func init() {
 	props["C05"] = &propCfg{
-		id: "C05", level: "exploration", quickN: 12000, thoroughN: 1200000,
+		id: "C05", level: "exploration", quickN: 12000, thoroughN: 300000,
 		rule: "One episode = one seeded hostile program (1-3 idioms out of ~37 idiom families, optionally wrapped in closures/loops, with modules) run through Compiled.RunContext or Script.RunContext " +
 			"under a seeded context kind, injected faults (panic from the per-instruction hook, host-function error/nil/panic/block, allocation budget, small string/bytes maxima, caller stall) and schedule, followed by Get/GetAll/IsDefined/Set/RunContext after-care on the same object. " +
 			"A case is (idiom set | context kind | class of the hostile run's outcome with numbers removed); non-trivial when that outcome is an error or a cancellation (the program really misbehaved). Worker processes isolate fatal errors.",
@@ -50,7 +50,7 @@ func init() {
 
 func init() {
 	props["C08"] = &propCfg{
-		id: "C08", level: "exploration", race: true, quickN: 3000, thoroughN: 150000, recycle: 300,
+		id: "C08", level: "exploration", race: true, quickN: 3000, thoroughN: 80000, recycle: 300,
 		subProp: "C08P", subEvery: 5,
 		rule: "One episode = one seeded program assembled from fragments that touch shared constants, compiled functions, source and builtin modules, the file set and the formatter pool; either K=2..5 clones (incl. clones of clones, clones of an object that already ran) each driven by its own thread (Set inputs, Run/RunContext, GetAll, optionally ReplaceBuiltinModule), or 2-3 threads issuing Get/GetAll/IsDefined/Set/Run/RunContext/Clone/Size on ONE object; threads are interleaved per VM instruction and at lock sites by a burst-biased seeded tape. " +
 			"Race build: the simulator's hand-offs are invisible to the race detector and sync.Pools are drained at every context switch, so conflicting unsynchronised accesses are reported whatever the timing. A case is (shape | fragment set); non-trivial when the threads were actually interleaved (more context switches than twice the number of threads). " +
@@ -70,7 +70,7 @@ func init() {
 
 func init() {
 	props["C06"] = &propCfg{
-		id: "C06", level: "fault_enumeration", quickN: 3000, thoroughN: 400000,
+		id: "C06", level: "fault_enumeration", quickN: 3000, thoroughN: 300000,
 		rule: "One episode = one generated program. alloc shape: the allocation budget N (the library's own allocation-failure injector) is swept over EVERY allocation index 0..A of the program and of its twin with one more operation of a documented object-creating kind K appended; each run is a fresh compile with fresh inputs through RunContext; relations between runs are the oracle (failure identity below the threshold, success and identical globals at and above it, threshold(p+K) >= threshold(p)+1, calibrated literal ladders need at least as many allocations as literals). " +
 			"strlen shape: string/bytes growers under the 4x4 grid of (MaxStringLen, MaxBytesLen) in {8,64,1024,default}, every String/Bytes reachable from the globals measured after every run. recursion shape: depth/width ladders around and beyond the frame and operand-stack capacity. " +
 			"evaluations = executed runs; a case is (shape | operation kinds); non-trivial when at least one limited run was driven across its boundary (budget exhausted, length limit hit, capacity exceeded).",
@@ -86,7 +86,7 @@ func init() {
 
 func init() {
 	props["C14"] = &propCfg{
-		id: "C14", level: "fault_enumeration", quickN: 1500, thoroughN: 300000,
+		id: "C14", level: "fault_enumeration", quickN: 1500, thoroughN: 200000,
 		rule: "One episode = one generated call-tree program (one statement per line, every function called from one site, recursion with explicit depth counters, closures, a source module, abundant dead code, optionally the whole program as a module of an importing main file). A fault-free run records the dynamic sequence of marker host calls m1..mn; then EVERY k in 1..n (all k up to 300, boundary + sampled above) is re-run with 'fail the k-th host call', every planted failure site (index out of bounds, string limit, bytes limit, ill-typed operand, non-callable) is switched on in turn, the frame-limit ladder is run, and the allocation budget is swept over the first 120 allocation indexes. " +
 			"The failing statement and the active call chain are known by construction of the workload. evaluations = executed runs; a case is (shape | number of functions | log2 bucket of the marker sequence length); non-trivial when at least one marker call exists.",
 		assume: []string{
@@ -101,7 +101,7 @@ func init() {
 
 func init() {
 	props["C15"] = &propCfg{
-		id: "C15", level: "exploration", quickN: 20000, thoroughN: 2000000,
+		id: "C15", level: "exploration", quickN: 20000, thoroughN: 800000,
 		rule: "One episode = one generated API history. seq shape: one client, up to ~35 operations out of Script.Add/Remove/Compile/Run/RunContext, Compiled.Set/Get(+all typed accessors)/GetAll/IsDefined/Run/RunContext/Clone and Eval, over 1-2 scripts of a tiny effect DSL, with Go values of every documented kind (nested, plus kinds outside the table), optionally with injected faults inside runs (cancellation at a chosen instruction, failing/panicking host call, allocation budget) that leave prefix states; checked operation by operation against the executable reference model (set of possible states). " +
 			"conc shape: 2-3 simulated clients issue up to 24 operations on one compiled object and its clones under a seeded schedule; the invoke/return history stamped with controller decision numbers is checked for linearizability with porcupine against the same model. Every written value is unique. A case is (shape | number of distinct operation kinds or clients/ops bucket | faulty); non-trivial when at least 5 operation kinds occur (seq) or the clients were really interleaved (conc).",
 		assume: []string{
